@@ -107,6 +107,8 @@ theorem apply0_path_frame (w : World) (l : Label) (x : EId) (h : writesPath l = 
   case wiRecheck x' => simp only [apply0]; split <;> simp
   case wiEnd => simp [apply0]
   case wiCancel => simp [apply0]
+  case expectTimeout x' => simp only [apply0]; split <;> simp
+  case expectCancelReq x' => simp only [apply0]; split <;> simp
   case stopBegin => simp [apply0]
   case stopNoop => simp [apply0]
   case stopEnd x' => simp only [apply0]; split <;> (try split) <;> simp
